@@ -157,7 +157,10 @@ pub fn gen_case(r: &mut Xo, max_lines: usize, tune: &dyn Fn(&mut Xo, &mut MCfg))
         only_client: false,
         only_network: false,
         fracs: [gen_frac(r), gen_frac(r), gen_frac(r), gen_frac(r)],
-        seed: rand_core::RngCore::next_u64(r) >> 1,
+        seed: match r.below(12) {
+            0 => *r.pick(&[0, 1, u64::MAX, u64::MAX - 1, 1 << 63, (1 << 63) - 1, u32::MAX as u64]),
+            _ => rand_core::RngCore::next_u64(r),
+        },
         use_sim_fn: false,
     }
 }
